@@ -1797,6 +1797,10 @@ std::vector<GeoSpec> make_specs(verif::Args const& args, std::uint64_t ngen, std
     for (std::uint64_t i = 0; i < nhand; ++i)
         specs.push_back({"handmade", "hand" + std::to_string(i), "", verif::mix_seed(args.seed, 500000 + i),
                          long(200000 + i)});
+    // three-level nestings with translated/rotated placements (a third as many as "orangeinp")
+    for (std::uint64_t i = 0; i < (ngen + 2) / 3; ++i)
+        specs.push_back({"orangeinp-deep", "deep" + std::to_string(i), "", verif::mix_seed(args.seed, 700000 + i),
+                         long(300000 + i)});
     return specs;
 }
 
@@ -1830,11 +1834,13 @@ bool load_geo(GeoSpec const& sp, Geo& g, Ctx& cx)
             }
             g.input = geo_workload::read_json(sp.path);
         }
-        else if (sp.family == "orangeinp")
+        else if (sp.family == "orangeinp" || sp.family == "orangeinp-deep")
         {
             Rng rng(sp.gseed);
             geo_workload::GenStats st;
-            g.input = geo_workload::generate_orangeinp(rng, st);
+            g.input = geo_workload::generate_orangeinp(rng, st, sp.family == "orangeinp-deep");
+            if (sp.family == "orangeinp-deep")
+                cx.rep.observe("gen.deep.depth=" + std::to_string(st.max_depth));
             cx.rep.observe("gen.units", st.units);
             cx.rep.observe("gen.daughters", st.daughters);
             cx.rep.observe("gen.rotated_placements", st.rotated);
